@@ -143,11 +143,10 @@ def stepLine (st : St) (line : String) : St × String :=
       let l := CssVerif.Gen.C14.builtins
       let env := CssVerif.Gen.C14.envLit
       let ok := decide ((l.map (·.name)).Nodup) && (init theCfg l).2.isNone
-        -- the premises of `C14.builtin_init_ok`, evaluated once more by compiled code
+        -- the premises of `C14.builtin_init_ok` / `builtin_acyclic`, evaluated once more by compiled code
         && decide (CssVerif.Gen.C14.base = theCfg.base)
         && l.foldl (fun m d => dupdate m (if truthy d.macros then d.macros.getD [] else [])) theCfg.base == env
-        && acyclicB env && closedB env && l.all (fun d => propsClosedB env d.props)
-        && decide (env.length + 1 ≤ theCfg.fuel)
+        && acyclicB env && l.all (fun d => propsDeepB env theCfg.fuel d.props)
       (st, if ok then "OK" else "FAIL")
   | ["add", n, p, m] => match decCps n, decProps p, decMacros m with
       | some n, some p, some m =>
